@@ -74,6 +74,23 @@ fn locations_case(unit: u64, k: u64, ctx: &mut Ctx) {
             ctx.feature("with_seeded_fault");
         }
     }
+    // spans that end exactly at the end of a document: no final newline, and an unfinished last statement whose
+    // syntax error sits at end of file (only appended text: recorded offsets stay valid)
+    for fi in 0..p.files.len() {
+        match rng.below(4) {
+            0 => {
+                let t = p.files[fi].1.trim_end().to_string();
+                p.files[fi].1 = t;
+                ctx.feature("file_without_final_newline");
+            }
+            1 => {
+                let t = format!("{}class Unfinished{}", p.files[fi].1.trim_end_matches(' '), fi);
+                p.files[fi].1 = t;
+                ctx.feature("file_with_error_at_eof");
+            }
+            _ => {}
+        }
+    }
     let w = p.workspace();
     let case = w.to_json();
     ctx.current_json(&case);
@@ -279,6 +296,8 @@ struct Action {
     doc: usize,
     include_next: bool,
     faulty: bool,
+    /// send exactly the text the editor sent last for this document (a re-opened tab, a no-op change)
+    resend: bool,
 }
 
 fn run_session(mode: LMode, docs: &[&str], actions: &[Action], check_every_step: bool, ctx: &mut Ctx, exhaustive: bool) {
@@ -300,7 +319,13 @@ fn run_session(mode: LMode, docs: &[&str], actions: &[Action], check_every_step:
     let mut watchdog = false;
     for (step, act) in actions.iter().enumerate() {
         versions[act.doc] += 1;
-        let text = doc_text(act.doc, docs, "ed", versions[act.doc] * 10 + act.doc, act.include_next, act.faulty);
+        let text = match (&buffers[act.doc], act.resend) {
+            (Some(prev), true) => prev.clone(),
+            _ => doc_text(act.doc, docs, "ed", versions[act.doc] * 10 + act.doc, act.include_next, act.faulty),
+        };
+        if act.resend && buffers[act.doc].is_some() {
+            ctx.feature("action:resend-same-text");
+        }
         if mode == LMode::Converge {
             disk[act.doc] = text.clone();
             s.write_disk(docs[act.doc], &text);
@@ -459,9 +484,10 @@ fn action_pool(n_docs: usize) -> Vec<Action> {
                 if include_next && doc + 1 >= n_docs {
                     continue;
                 }
-                v.push(Action { doc, include_next, faulty });
+                v.push(Action { doc, include_next, faulty, resend: false });
             }
         }
+        v.push(Action { doc, include_next: false, faulty: true, resend: true });
     }
     v
 }
@@ -555,7 +581,7 @@ impl Check for LspCheck {
                         .filter_map(|h| {
                             let d = docs.iter().position(|x| Some(x.as_str()) == h["doc"].as_str())?;
                             let t = h["text"].as_str()?;
-                            Some(Action { doc: d, include_next: t.contains("include "), faulty: t.contains(" : U_") })
+                            Some(Action { doc: d, include_next: t.contains("include "), faulty: t.contains(" : U_"), resend: false })
                         })
                         .collect()
                 })
@@ -568,7 +594,7 @@ impl Check for LspCheck {
     fn rule(&self) -> String {
         match self.mode {
             LMode::Locations => "generated multi-file workspaces (G-prog: root + 1-2 included files with different line structure, half with non-ASCII text, a quarter CRLF, half with a dead use, half with one seeded semantic fault) written to a per-session directory; the real server is driven over JSON-RPC in process (didOpen of the root, logical quiescence through hook counters + barrier requests). For up to 60 (thorough 200) identifier positions (uses and declarations, in every file): textDocument/definition and textDocument/references; for every file: documentSymbol (range and selectionRange of every node), foldingRange (lines), documentLink (range + target URI), inlayHint (positions); publishDiagnostics per URI. Each answer must equal the ide-level result for the same texts with every (file, byte range) converted by refpos USING THE TEXT OF THE FILE THE RANGE BELONGS TO. non-trivial = every workspace; distinct by digest".into(),
-            LMode::Converge => "sessions over documents a.td (-> b.td (-> c.td)); every text version carries uniquely named classes and, if faulty, a uniquely named undefined parent, and includes the next document or not; disk is rewritten with the same text before each message (so C12 cannot interfere). EXHAUSTIVE: all histories of length <= 3 (thorough 4) over the 6-action pool of two documents, each run twice: checked at every quiescent prefix, and sent as a burst and checked at the end. RANDOM: histories of 4-8 actions over three documents. At each quiescent point (all snapshot tasks ended by hook counters, then barrier requests): for every file of the final workspace the last published diagnostics equal those of a fresh analysis of the reference session state (refpos-converted); every URI ever published that is not in the final workspace has an empty last publication; versions per URI never decrease (checked on the arrival order of the notification stream). non-trivial = every session; distinct by action sequence".into(),
+            LMode::Converge => "sessions over documents a.td (-> b.td (-> c.td)); every text version carries uniquely named classes and, if faulty, a uniquely named undefined parent, and includes the next document or not; disk is rewritten with the same text before each message (so C12 cannot interfere). EXHAUSTIVE: all histories of length <= 3 (thorough 4) over the 8-action pool of two documents (6 new texts + a resend of the unchanged text per document), each run twice: checked at every quiescent prefix, and sent as a burst and checked at the end. RANDOM: histories of 4-8 actions over three documents. At each quiescent point (all snapshot tasks ended by hook counters, then barrier requests): for every file of the final workspace the last published diagnostics equal those of a fresh analysis of the reference session state (refpos-converted); every URI ever published that is not in the final workspace has an empty last publication; versions per URI never decrease (checked on the arrival order of the notification stream). non-trivial = every session; distinct by action sequence".into(),
             LMode::Buffers => "same session space as C11, but the disk holds texts the editor never sends (faulty, including the next document, marked _disk_) while the editor sends texts marked _ed_: reference session = disk overlaid by open buffers, root = last touched document. At each quiescent point the undefined-class markers named by the last published diagnostics of workspace files must be exactly those of the reference session, and documentSymbol of every workspace document must list exactly the classes its current reference text declares (an open document reached only through an include must show its editor text; a never-opened one its disk text). non-trivial = every session".into(),
         }
     }
@@ -578,13 +604,13 @@ impl Check for LspCheck {
                 let n = tier.pick(100, 4000);
                 vec![("workspaces", n), ("definition_cross_file", n), ("definition_same_file", n), ("references_requests", n * 10), ("non_ascii", n / 4), ("crlf", n / 10), ("diagnostics_in_included_file", n / 20), ("documentLink_nonempty", n / 2), ("inlayHint_nonempty", n / 2)]
             }
-            _ => vec![("exhaustive_sessions", tier.pick(400, 2500)), ("random_sessions", tier.pick(150, 8000)), ("sessions_burst", 100), ("quiescent_points", tier.pick(1000, 20_000)), ("action:with-include", 500)],
+            _ => vec![("exhaustive_sessions", tier.pick(400, 2500)), ("random_sessions", tier.pick(150, 8000)), ("sessions_burst", 100), ("quiescent_points", tier.pick(1000, 20_000)), ("action:with-include", 500), ("action:resend-same-text", 200)],
         }
     }
     fn exhaustive(&self, tier: Tier) -> Option<String> {
         match self.mode {
             LMode::Locations => None,
-            _ => Some(format!("sub-space: all histories of length <= {} over the 6-action pool of two documents, in stepwise and burst form", tier.pick(3, 4))),
+            _ => Some(format!("sub-space: all histories of length <= {} over the 8-action pool of two documents (6 new texts + a resend of the unchanged text per document), in stepwise and burst form", tier.pick(3, 4))),
         }
     }
     fn assumptions(&self) -> Vec<String> {
